@@ -9,7 +9,7 @@ def lr_ok(F, j0, j1, cum, L, own, sg_pos, sg_len, sg_attr):
     return (0 <= j0 and j0 <= j1 and j1 < len(sg_pos) and len(cum) == len(sg_pos) + 1 and cum[j0] == 0
             and forall(j0, j1, lambda j: bit(sg_attr[j], 5), trigger=lambda j: [sg_attr[j]])
             and not bit(sg_attr[j1], 5)
-            and forall(j0, j1 + 1, lambda j: cum[j + 1] == cum[j] + plen(F, sg_pos[j], sg_len[j], sg_attr[j]) and cum[j] >= 0,
+            and forall(j0, j1 + 1, lambda j: cum[j + 1] == cum[j] + plen(F, sg_pos[j], sg_len[j], sg_attr[j]) and cum[j] >= 0 and cum[j + 1] <= len(L),
                        trigger=lambda j: [sg_len[j]])
             and len(L) == cum[j1 + 1]
             and len(own) == len(L)
